@@ -12,17 +12,21 @@ import vlib
 LEVEL = 'proof'
 
 OBL = '''From Coq Require Import ZArith List Bool String Lia.
-Require Import PyIR.Base.Result PyIR.IW.IW PyIR.Engine.Parse PyIR.Proto.Descriptor PyIR.Ctl.Instance.
-Require Import Gen.Tables.
+Require Import PyIR.Base.Result PyIR.IW.IW PyIR.Engine.Parse PyIR.Proto.Descriptor PyIR.Proto.Model PyIR.Ctl.Instance PyIR.Ctl.InstanceChk.
+Require Import Gen.Tables%s.
 Import ListNotations.
 Open Scope Z_scope.
+
+(* the protocol's own checks in decode() (the regenerated decode tree; trivial when decode is not overridden) *)
+Definition chk : list iw -> dec_model := %s.
 
 (* %s: for EVERY state of a decoder instance (any held key, after any history), every ptable, every tolerance and every frame
    whose length is not that of the repeat marker (%d durations): same key or same error as a fresh decoder *)
 Theorem C07_%s : forall t tol s frame, List.length frame <> %d%%nat ->
-  res_ident D_%s (snd (fst (decode_inst D_%s t tol s frame))) = res_ident D_%s (snd (fst (decode_inst D_%s t tol fresh frame))).
+  res_ident D_%s (snd (fst (decode_inst_chk D_%s t tol chk s frame))) =
+  res_ident D_%s (snd (fst (decode_inst_chk D_%s t tol chk fresh frame))).
 Proof.
-  intros t tol s frame Hlen. apply full_frame_history_independent; [reflexivity| |exact Hlen].
+  intros t tol s frame Hlen. apply full_frame_history_independent_chk; [|exact Hlen].
   repeat constructor; discriminate.
 Qed.
 Print Assumptions C07_%s.
@@ -30,14 +34,14 @@ Print Assumptions C07_%s.
 
 
 def gen_obligation(e):
+    import instance_chk as ic
     p = e['p']
-    if not ih.modelled_instance(p):
-        return None, 'decode() is overridden or the engine class is outside the instance model'
-    if p['rep_bursts']:
-        return None, 'refuted-candidate: repeat frames carry data (_repeat_bursts not empty): the repeat branch can accept full frames'
+    ok, why = ic.modelled(p, e['model'] if e['compiled'] else None)
+    if not ok:
+        return None, why
     n = len(p['rep_lead_in']) + len(p['rep_lead_out'])
     nm = p['name']
-    return OBL % (nm, n, nm, n, nm, nm, nm, nm, nm), None
+    return OBL % (' Gen.P_%s' % nm if p['overrides_decode'] else '', ic.chk_term(p), nm, n, nm, n, nm, nm, nm, nm, nm), None
 
 
 def outcome(p, inst, frame):
@@ -134,22 +138,79 @@ def search(ctx, protos, depth, per):
     return hits
 
 
+def near_key_search(ctx, protos, hits):
+    """History = one full frame of key A; probe = a full frame of a key that differs from A in ONE bit of one parameter: the decoder
+    must answer with the probe's parameters exactly as a fresh decoder does (a held key must not absorb a neighbouring key)."""
+    for p in protos:
+        name = p['name']
+        eps = p['encode_parameters']
+        if not eps:
+            continue
+        for base in ({a: lo for a, lo, hi in eps}, {a: (lo + hi) // 2 for a, lo, hi in eps}, {a: hi for a, lo, hi in eps}):
+            cA, e = engine.fresh_encode(p, base, repeat_count=0)
+            if cA is None:
+                continue
+            fA = list(cA.normalized_rlc[0])
+            variants = []
+            for a, lo, hi in eps:
+                b = 1
+                while b <= hi:
+                    v = base[a] ^ b
+                    if lo <= v <= hi:
+                        nb = dict(base)
+                        nb[a] = v
+                        variants.append(nb)
+                    b <<= 1
+            # small parameters: other values too, not only one-bit neighbours (identity forms that drop or wrap bits)
+            for a, lo, hi in eps:
+                if hi - lo + 1 <= 32:
+                    for v in range(lo, hi + 1):
+                        if v != base[a] and not any(x[a] == v and all(x[k] == base[k] for k in base if k != a) for x in variants):
+                            nb = dict(base)
+                            nb[a] = v
+                            variants.append(nb)
+            for nb in variants[:120]:
+                cB, e = engine.fresh_encode(p, nb, repeat_count=0)
+                if cB is None:
+                    continue
+                fB = list(cB.normalized_rlc[0])
+                ctx.count_eval(key=(name, 'near', tuple(sorted(base.items())), tuple(sorted(nb.items()))))
+                with engine.class_guard(p['cls']):
+                    inst = p['cls']()
+                    outcome(p, inst, fA)
+                    got = outcome(p, inst, fB)
+                    vlib.drain_workers()
+                    want = outcome(p, p['cls'](), fB)
+                    vlib.drain_workers()
+                if got != want and not (got[0] == 'code' and want[0] == 'code' and got[1:] == want[1:]):
+                    hits[name] = True
+                    ctx.report(name, 'full frame decoded differently after a history', dict(word='A', held_same_key=False),
+                               dict(protocol=name, keyA=base, keyB=nb, word=['A'], probe='B', after_history=list(got), fresh=list(want)))
+                    break
+            else:
+                continue
+            break
+
+
 def run(ctx):
     vlib.import_repo()
     info = perproto.prepare_models(ctx)
     protos = [e['p'] for e in info.values()]
     hits = search(ctx, protos, 3 if ctx.tier == 'quick' else 4, 12 if ctx.tier == 'quick' else 300)
+    near_key_search(ctx, protos, hits)
     results = perproto.run_obligations(ctx, 'C07', info, gen_obligation, timeout=120)
     vlib.check_props_file(ctx, 'C07')
     perproto.settle(ctx, 'C07', results, hits)
+    import instance_chk as ic
     items = []
-    for p in protos:
-        if ih.modelled_instance(p):
+    for name, e in info.items():
+        p = e['p']
+        if e['compiled'] and results.get(name, {}).get('status') == 'proved':
             for seq in ih.sequences_for(p, ctx.rng, 5 if ctx.tier == 'quick' else 60):
                 items.append((p, 20, seq))
-    bad = ih.corr_instance(ctx, items)
+    bad = ic.corr_instance_chk(ctx, items)
     if bad is None:
-        ctx.report('correspondence', 'model-eval-failed', {}, dict(theorem='PyIR.Ctl.Instance.run_instance evaluation'), found_input=False)
+        ctx.report('correspondence', 'model-eval-failed', {}, dict(theorem='PyIR.Ctl.InstanceChk.run_instance_chk evaluation'), found_input=False)
         bad = []
     for (p, tol, frames), impl, model in bad:
         ctx.report(p['name'], 'instance-model-disagrees', dict(frames=len(frames)),
@@ -159,8 +220,10 @@ def run(ctx):
     ctx.cov['rule'] = ('all protocols x two keys x history words of depth %d over {full A, last frame of A, full B, last frame of B, '
                        'garbage, encode call, deliver queued release callbacks} followed by a full frame of A or B, compared with a '
                        'fresh decoder; distinct = (protocol, word, probe)' % (3 if ctx.tier == 'quick' else 4))
-    ctx.cov['trusted_base'] += ['hand-written model PyIR.Ctl.Instance (classes that do not override decode), tied by correspondence; '
-                                'overriding decoders are covered by the history search only']
+    ctx.cov['trusted_base'] += ['hand-written model PyIR.Ctl.InstanceChk: IrProtocolBase.decode with its held key, for classes that do not '
+                                'override decode or override it after the common template (recognised syntactically by tools/instance_chk.py), '
+                                'with the regenerated decode tree as the protocol check; tied by correspondence on frame sequences; other '
+                                'decoders are covered by the history search only']
 
 
 def replay(path):
